@@ -120,6 +120,31 @@ CHECKS = {
         "Assumes two fresh processes differ only in random suffixes (re-checked on a ninth of the "
         "references each run). Histories are bounded (10 / 16 steps).",
         "DESIGN.md section 3, C10"),
+    "C11": (
+        "exhaustive enumeration of parameter-list shapes x annotation x placement x 8 configurations; "
+        "harness-applied call battery on the original and converted function objects + "
+        "inspect.signature comparison; whole-program templates for decorators/returns/defaults",
+        "All 757 parameter-list shapes (0-2 positional-only, 0-2 positional-or-keyword, every number of "
+        "trailing defaults, *args / bare *, 0-2 keyword-only with/without default, **kwargs), plain "
+        "and annotated, are defined at module level, inside a function (default names captured and "
+        "later rebound) and in a class body (default names are class members), converted under all "
+        "8 configurations, and both function objects are called with a battery of ~30-60 call shapes: "
+        "equal result tuples or TypeError on both sides; inspect.signature modulo annotations equal.",
+        "TypeError compared by type only. Decorator order, return forms and default evaluation time are "
+        "covered by ten whole-program templates (and by C07).",
+        "DESIGN.md section 3, C11"),
+    "C12": (
+        "enumeration of the class-skeleton product (bases x metaclass x keywords x decorators x member "
+        "sets x 6 placements) + Hypothesis-drawn larger member sets; harness inspection of the class "
+        "object (MRO, metaclass, canonical attributes, call script on instance/class/subclass)",
+        "Class statements over 6 base shapes, implicit/explicit metaclass, keywords consumed by "
+        "__init_subclass__, 0-2 decorators incl. one returning a different object, every member set of "
+        "size <= 2 from 18 member kinds, placed at module level, in a function, in a class, in a class "
+        "in a function, global-declared in a function and captured by a closure; the harness compares "
+        "MRO, bases, metaclass, user attributes, where the name is bound and the results of a fixed "
+        "call script against the class CPython builds. Quick: all size-<=1 sets + every 6th size-2 set.",
+        "Class-creation hooks that look at the namespace and class metadata are outside the property.",
+        "DESIGN.md section 3, C12"),
     "C16": (
         "Hypothesis-generated argv / file / output-mode cases plus a fixed invalid-option matrix, "
         "each one real `python -m oneliner` process; model of -C parsing; API differential + "
